@@ -336,11 +336,13 @@ CODE_LEVEL = {
     "C09": (["O1722.Refine.PropsVss"], ["O1722.Refine.Avtp_Vss_Pad_refines", "O1722.Refine.C09_code"],
             "the C text of Avtp_Vss_Pad (with Avtp_Vss_SetField, Avtp_SetField and the regenerated table) = Model.vssPad, hence "
             "length = ceil(len/4), pad count, exactly the pad bytes zeroed, nothing else changed"),
-    "C06": (["O1722.Refine.PropsCan"], ["O1722.Refine.Avtp_Can_Finalize_mem", "O1722.Refine.Avtp_Can_CreateAcfMessage_refines", "O1722.Refine.C06_code",
+    "C06": (["O1722.Refine.PropsCan", "O1722.Refine.CanLen"], ["O1722.Refine.C06_code_readback_partial", "O1722.Refine.Avtp_Can_Finalize_mem", "O1722.Refine.Avtp_Can_CreateAcfMessage_refines", "O1722.Refine.C06_code",
                                          "O1722.Refine.Avtp_CanBrief_Finalize_mem", "O1722.Refine.Avtp_CanBrief_SetPayload_refines", "O1722.Refine.C06_code_brief"],
             "the C text of Avtp_Can_CreateAcfMessage (with SetPayload, Finalize, Avtp_Can_SetField, Avtp_SetField and the regenerated "
             "table) = Model.canCreate, hence payload verbatim, zero pad, length/pad/identifier/EFF/FDF set, nothing else changed "
-            "(full and abbreviated ACF-CAN builders; the abbreviated one also returns the padded length)"),
+            "(full and abbreviated ACF-CAN builders; the abbreviated one also returns the padded length); read-back of the payload "
+            "length through the C text of Avtp_Can_GetCanPayloadLength and its two dedicated getters: PARTIAL (headers whose int "
+            "arithmetic does not go negative)"),
     "C03": (["O1722.Refine.Props"], ["O1722.Refine.C01_code", "O1722.Refine.C02_code"],
             "every access of the C text of Avtp_GetField/SetField lies in a quadlet the field occupies"),
     "C15": (["O1722.Refine.Props"], ["O1722.Refine.C01_code", "O1722.Refine.C02_code"],
